@@ -136,6 +136,7 @@ namespace vh
         {
             buf += "}\n";
             fwrite(buf.data(), 1, buf.size(), f);
+            fflush(f); // a later crash must never truncate an already recorded event
         }
         void flush() { fflush(f); }
     };
